@@ -1,8 +1,9 @@
-// Child-process plumbing for the C17 harness (copied from harness/cmd/c02/wd, which other commands
-// must not import): compact.Build allocates several 79 MB buffers per goroutine and per pass; in a
-// long-lived process the garbage collector recycles them and every build spends seconds clearing
-// memory. Cases are therefore built in fresh child processes with the collector off, which also
-// contains fatal goroutine panics and hangs of the builders.
+// Child-process plumbing of the C17 harness (after harness/cmd/c02/wd, which other commands must not
+// import). The cases run in a few long-lived children (see build() in main.go for why), `Size`
+// consecutive case numbers per child and `Workers` children at a time. A child prints the transcript of
+// every case as soon as it is finished, so that when a child dies (a fatal panic in a builder goroutine)
+// or hangs, the finished cases are kept, the case it was working on is answered `crash` / `hang`, and a
+// new child continues after it.
 package main
 
 import (
@@ -17,9 +18,9 @@ import (
 	"verifharness/hx"
 )
 
-// Spawn re-invokes this binary as hx child `name` (see hx.RegisterChild) and returns its answer,
-// "hang" on timeout or "crash".
-func Spawn(name, arg string, timeout time.Duration, procs int) string {
+// spawn re-invokes this binary as hx child `name` and returns everything it printed and how it ended:
+// "ok", "hang" (killed after the timeout) or "crash".
+func spawn(name, arg string, timeout time.Duration, procs int) (string, string) {
 	self, _ := os.Executable()
 	cmd := exec.Command(self)
 	cmd.Env = append(os.Environ(), "HX_CHILD="+name, "GOGC=off", fmt.Sprintf("GOMAXPROCS=%d", procs))
@@ -27,43 +28,38 @@ func Spawn(name, arg string, timeout time.Duration, procs int) string {
 	var sb strings.Builder
 	cmd.Stdout = &sb
 	if err := cmd.Start(); err != nil {
-		return "crash"
+		return "", "crash"
 	}
 	done := make(chan error, 1)
 	go func() { done <- cmd.Wait() }()
 	select {
-	case <-done:
+	case err := <-done:
+		if err != nil {
+			return sb.String(), "crash"
+		}
+		return sb.String(), "ok"
 	case <-time.After(timeout):
 		cmd.Process.Kill()
 		<-done
-		return "hang"
+		return sb.String(), "hang"
 	}
-	s := sb.String()
-	if i := strings.LastIndex(s, "HXRESULT "); i >= 0 {
-		return s[i+len("HXRESULT "):]
-	}
-	return "crash"
 }
 
-// CaseRand is the per-case PRNG exactly as hx.Main derives it, so that a child (and the look-ahead)
-// can regenerate case `no` from the seed alone.
+// CaseRand is the per-case PRNG exactly as hx.Main derives it, so that a child can regenerate case
+// `no` from the seed alone.
 func CaseRand(seed uint64, no int) *hx.Rand {
 	return hx.NewRand(seed*0x9e3779b97f4a7c15 ^ uint64(no)*0xd1342543de82ef95 ^ 0x5851f42d4c957f2d)
 }
 
-// Blocks runs the cases of a family in child processes, `size` consecutive case numbers per child and
-// `workers` children at a time, looking `ahead` blocks beyond the one being asked for. The child `name`
-// gets "seed tier first count" and answers with one transcript per case, each introduced by a line
-// "CASE\t<no>". The corpus case (no >= 1000000) is a block of its own.
 type Blocks struct {
-	Name     string
-	Size     int
-	Workers  int
-	Ahead    int
-	Procs    int
-	Timeout  time.Duration
-	// Run, when set, replaces the default (one Spawn of child Name per block)
-	Run      func(seed uint64, tier string, first, count int) string
+	Name    string
+	Size    int
+	Workers int
+	Ahead   int
+	Procs   int
+	// Timeout of a child = Base + PerCase * number of cases it is given
+	Base     time.Duration
+	PerCase  time.Duration
 	mu       sync.Mutex
 	pending  map[int]chan map[int]string
 	sem      chan struct{}
@@ -73,42 +69,10 @@ type Blocks struct {
 	lastBlk  int
 }
 
-func (b *Blocks) runBlock(blk int) map[int]string {
-	first, count := blk*b.Size, b.Size
-	if blk < 0 {
-		first, count = 1000000, 1
-	}
-	var res string
-	if b.Run != nil {
-		res = b.Run(b.seed, b.tier, first, count)
-	} else {
-		res = Spawn(b.Name, fmt.Sprintf("%d %s %d %d", b.seed, b.tier, first, count), b.Timeout, b.Procs)
-	}
-	out := map[int]string{}
-	if res == "crash" || res == "hang" {
-		// find the culprit by running the block's cases one per child
-		if count > 1 {
-			for no := first; no < first+count; no++ {
-				r1 := Spawn(b.Name, fmt.Sprintf("%d %s %d %d", b.seed, b.tier, no, 1), b.Timeout, b.Procs)
-				if r1 == "crash" || r1 == "hang" {
-					out[no] = r1
-				} else {
-					for k, v := range splitCases(r1) {
-						out[k] = v
-					}
-				}
-			}
-			return out
-		}
-		out[first] = res
-		return out
-	}
-	return splitCases(res)
-}
-
-func splitCases(res string) map[int]string {
-	out := map[int]string{}
-	for _, part := range strings.Split(res, "CASE\t") {
+// finished returns the transcripts of the cases the child completed (`CASE\t<no>\n … END\t<no>\n`).
+func finished(out string) map[int]string {
+	res := map[int]string{}
+	for _, part := range strings.Split(out, "CASE\t")[1:] {
 		nl := strings.IndexByte(part, '\n')
 		if nl < 0 {
 			continue
@@ -117,9 +81,44 @@ func splitCases(res string) map[int]string {
 		if err != nil {
 			continue
 		}
-		out[no] = part[nl+1:]
+		end := fmt.Sprintf("END\t%d\n", no)
+		if i := strings.Index(part, end); i >= 0 {
+			res[no] = part[nl+1 : i]
+		}
 	}
-	return out
+	return res
+}
+
+func (b *Blocks) runBlock(blk int) map[int]string {
+	first, count := blk*b.Size, b.Size
+	if blk < 0 {
+		first, count = 1000000, 1
+	}
+	res := map[int]string{}
+	cur, end := first, first+count
+	for cur < end {
+		out, status := spawn(b.Name, fmt.Sprintf("%d %s %d %d", b.seed, b.tier, cur, end-cur), b.Base+time.Duration(end-cur)*b.PerCase, b.Procs)
+		done := finished(out)
+		next := cur
+		for next < end {
+			t, ok := done[next]
+			if !ok {
+				break
+			}
+			res[next] = t
+			next++
+		}
+		if next >= end {
+			break
+		}
+		if status == "hang" {
+			res[next] = "hang"
+		} else {
+			res[next] = "crash"
+		}
+		cur = next + 1
+	}
+	return res
 }
 
 func (b *Blocks) start(blk int) chan map[int]string {
@@ -136,7 +135,8 @@ func (b *Blocks) start(blk int) chan map[int]string {
 	return ch
 }
 
-// Get returns the transcript of case `no` ("crash"/"hang" when its child died), scheduling later blocks.
+// Get returns the transcript of case `no` ("crash"/"hang" when its child died on it), scheduling the
+// following blocks.
 func (b *Blocks) Get(seed uint64, tier string, no int) string {
 	b.mu.Lock()
 	if b.pending == nil {
@@ -150,19 +150,20 @@ func (b *Blocks) Get(seed uint64, tier string, no int) string {
 		blk = -1
 	}
 	if blk == b.lastBlk {
-		r := b.lastDone[no]
+		r, ok := b.lastDone[no]
 		b.mu.Unlock()
+		if !ok {
+			return "crash"
+		}
 		return r
 	}
 	ch := b.start(blk)
-	if blk >= 0 {
-		for k := blk + 1; k <= blk+b.Ahead; k++ {
-			b.start(k)
-		}
-	} else {
-		for k := 0; k < b.Ahead; k++ {
-			b.start(k)
-		}
+	from := blk + 1
+	if blk < 0 {
+		from = 0
+	}
+	for k := from; k < from+b.Ahead; k++ {
+		b.start(k)
 	}
 	b.mu.Unlock()
 	m := <-ch
